@@ -295,6 +295,8 @@ enum HostKind {
     Stable,
     Matrix,
     Map,
+    Csr,
+    List,
 }
 struct HostConsistency {
     host: HostKind,
@@ -417,6 +419,29 @@ fn host_history(h: &HostConsistency, bit: &mut dyn FnMut(&str) -> bool) -> Vec<S
                     }
                     trait_view(&g, h.directed, &mut bad);
                 }
+                HostKind::Csr => {
+                    let mut g: petgraph::csr::Csr<(), u8, $ty> = petgraph::csr::Csr::with_nodes(n + 1);
+                    for (k, &(a, b)) in pairs.iter().enumerate() {
+                        if present[k] {
+                            g.add_edge(a as u32, b as u32, k as u8);
+                        }
+                    }
+                    out_view(&g, h.directed, &mut bad);
+                }
+                HostKind::List => {
+                    if h.directed {
+                        let mut g: petgraph::adj::List<u8> = petgraph::adj::List::new();
+                        for _ in 0..n + 1 {
+                            g.add_node();
+                        }
+                        for (k, &(a, b)) in pairs.iter().enumerate() {
+                            if present[k] {
+                                g.add_edge(a as u32, b as u32, k as u8);
+                            }
+                        }
+                        out_view(&g, true, &mut bad);
+                    }
+                }
                 HostKind::Map => {
                     // keys in descending order, one extra key removed again (indices shift as documented)
                     let mut g: petgraph::graphmap::GraphMap<u8, u8, $ty> = petgraph::graphmap::GraphMap::new();
@@ -455,6 +480,64 @@ fn host_history(h: &HostConsistency, bit: &mut dyn FnMut(&str) -> bool) -> Vec<S
         on!(Undirected);
     }
     bad
+}
+
+/// Outgoing-only hosts (Csr, adj::List): node ids, edge_references vs edge_count, edges / neighbors, adjacency matrix
+fn out_view<G>(g: G, directed: bool, bad: &mut Vec<String>)
+where
+    G: IntoNodeIdentifiers + IntoEdgeReferences + IntoEdges + NodeIndexable + NodeCount + EdgeCount + GetAdjacencyMatrix + Copy,
+    G::NodeId: PartialEq + std::fmt::Debug + Copy,
+{
+    let ids: Vec<G::NodeId> = g.node_identifiers().collect();
+    if ids.len() != g.node_count() || g.node_bound() != g.node_count() {
+        bad.push(format!("node_identifiers {:?} / node_count {} / node_bound {}", ids, g.node_count(), g.node_bound()));
+    }
+    for (k, &x) in ids.iter().enumerate() {
+        if g.to_index(x) != k || g.from_index(k) != x {
+            bad.push(format!("compact numbering: node {:?} has index {}", x, g.to_index(x)));
+        }
+    }
+    let all: Vec<(usize, usize)> = g.edge_references().map(|e| (g.to_index(e.source()), g.to_index(e.target()))).collect();
+    if all.len() != g.edge_count() {
+        bad.push(format!("edge_references yields {} edges {:?}, edge_count is {}", all.len(), all, g.edge_count()));
+    }
+    let adj = g.adjacency_matrix();
+    for &x in &ids {
+        let xi = g.to_index(x);
+        let mut es: Vec<(usize, usize)> = g.edges(x).map(|e| (g.to_index(e.source()), g.to_index(e.target()))).collect();
+        // the matching subset of the edge set (as a set: edge_references' multiplicity is judged above)
+        let mut want: Vec<(usize, usize)> = vec![];
+        for &(s, t) in &all {
+            if directed {
+                if s == xi {
+                    want.push((s, t));
+                }
+            } else if s == xi || t == xi {
+                want.push((xi, if s == xi { t } else { s }));
+            }
+        }
+        es.sort();
+        want.sort();
+        want.dedup();
+        let mut es_set = es.clone();
+        es_set.dedup();
+        if es_set != want || (directed && es != want) {
+            bad.push(format!("edges({}) = {:?}, matching subset of edge_references = {:?}", xi, es, want));
+        }
+        let mut nb: Vec<usize> = g.neighbors(x).map(|y| g.to_index(y)).collect();
+        nb.sort();
+        let en: Vec<usize> = es.iter().map(|e| e.1).collect();
+        if nb != en {
+            bad.push(format!("neighbors({}) = {:?}, targets of edges() = {:?}", xi, nb, en));
+        }
+        for &y in &ids {
+            let yi = g.to_index(y);
+            let wantadj = all.iter().any(|&(s, t)| (s == xi && t == yi) || (!directed && s == yi && t == xi));
+            if g.is_adjacent(&adj, x, y) != wantadj {
+                bad.push(format!("is_adjacent({}, {}) = {}, but edge exists = {}", xi, yi, !wantadj, wantadj));
+            }
+        }
+    }
 }
 
 /// MatrixGraph implements edges_directed only when directed: a reduced view
@@ -558,7 +641,7 @@ fn make(tier: &str, _seed: u64) -> Vec<Box<dyn Harness>> {
             }
         }
     }
-    for host in [HostKind::Graph, HostKind::Stable, HostKind::Matrix, HostKind::Map] {
+    for host in [HostKind::Graph, HostKind::Stable, HostKind::Matrix, HostKind::Map, HostKind::Csr, HostKind::List] {
         for directed in [true, false] {
             v.push(Box::new(HostConsistency { host, directed }));
         }
